@@ -11,23 +11,48 @@ SCHED_NOTE = ("Trusted base: the model of Go's sync/atomic/context/time/channel 
 SEQ_NOTE = ("Trusted base: the reference model written in the check (slices/maps), the canonical state key used to merge "
             "histories (argument in the check's package comment), bounded depth / input domain as reported in evidence.")
 
+SCHED = "stateless model checking: source-instrumented real code under a controlled scheduler, deviation-bounded exhaustive DFS over schedules (bounds iterated)"
 CHECKS = {
- "C05": dict(cat="model_checking", tech="explicit-state BFS over operation histories of the real Queue vs a reference model (sequential conformance)", ref="§4 C05",
-             text="Every operation history up to the reported depth (bounded option sets: until the state space closes) of the real pubsub.Queue and its Distributor agrees step by step with an independent FIFO + limit/credit model.", note=SEQ_NOTE),
- "C06": dict(cat="model_checking", tech="explicit-state BFS over operation histories of the real Deque vs a reference model (sequential conformance)", ref="§4 C06",
-             text="Every operation history up to the reported depth of the real pubsub.Deque (capacity 1, 2, unlimited, quota tracker) agrees step by step with an independent deque model (force-push eviction, close semantics).", note=SEQ_NOTE),
- "C07": dict(cat="exploration", tech="stateless model checking: controlled scheduler + deviation-bounded DFS over the instrumented real code", ref="§4 C07",
-             text="All schedules (up to the deviation bound) of closed programs with 1-2 parked consumers/producers, bursts of enabling operations, Close and cancel; quiescence oracle: no caller parked while its condition holds, everyone released by Close/cancel.", note=SCHED_NOTE),
- "C12": dict(cat="model_checking", tech="exhaustive enumeration of error-expression trees vs an independent constituent model", ref="§4 C12",
-             text="All error trees up to the reported depth over the leaf/constructor alphabet: nil-iff, single identity, errors.Is/As for every constituent, Unwind multiset and order.", note=SEQ_NOTE),
- "C14": dict(cat="exploration", tech="stateless model checking: controlled scheduler + deviation-bounded DFS over the instrumented real code", ref="§4 C14",
-             text="All schedules (up to the deviation bound) of waiters x workers x cancellation x reuse x Launch/DoTimes programs over the real fun.WaitGroup: Wait never returns early, always returns at zero / on cancel, counter conservation, negative Add panics.", note=SCHED_NOTE),
+ "C01": dict(cat="exploration", tech=SCHED, ref="§4 C01",
+             text="All schedules up to the deviation bound of 12 fan-out/fan-in constructs x input length x width: output multiset equals input, order where required, no deadlock.", note=SCHED_NOTE),
+ "C02": dict(cat="model_checking", tech="exhaustive enumeration of operator trees x inputs x injected skip/error/EOF positions vs a pure functional evaluator", ref="§4 C02",
+             text="Every pipeline of the enumerated families (sources x unary chains x n-ary merges x sinks) on every input over {0,1,2} with every single (thorough: double) injection yields exactly the sequence of the functional specification.", note=SEQ_NOTE),
+ "C03": dict(cat="fault_enumeration", tech=SCHED + "; fault matrix construct x configuration x fault position x failure kind", ref="§4 C03",
+             text="Every cell of the fault matrix (5 constructs x 2^5 configurations x workers x positions x 10 failure kinds) under every schedule up to the bound: reported iff reportable, no escaped panic, exactly-once in continue modes, bounded overrun in abort modes.", note=SCHED_NOTE),
+ "C04": dict(cat="exploration", tech=SCHED, ref="§4 C04",
+             text="All schedules up to the bound of construct x n x cut point x stop script (exhaust, Close, cancel, both orders, Close/cancel from another thread, Close racing the first advance, abandoned Split output): every goroutine exits, the consumer returns, finite input ends in EOF.", note=SCHED_NOTE),
+ "C05": dict(cat="model_checking", tech="explicit-state BFS of operation histories vs a reference model (sequential half) + " + SCHED + " with every history checked for linearizability by porcupine (concurrent half)", ref="§4 C05",
+             text="(a) Every operation history up to the reported depth of the real Queue/Distributor agrees with an independent FIFO + limit/credit model; (b) every recorded call/return history of 2-3 thread programs under every schedule up to the bound is linearizable w.r.t. that model.", note=SEQ_NOTE + " " + SCHED_NOTE),
+ "C06": dict(cat="model_checking", tech="explicit-state BFS of operation histories vs a reference model (sequential half) + " + SCHED + " with every history checked for linearizability by porcupine (concurrent half)", ref="§4 C06",
+             text="(a) Every operation history up to the reported depth of the real Deque agrees with an independent deque model; (b) every recorded history of 2-3 thread programs under every schedule up to the bound is linearizable w.r.t. that model.", note=SEQ_NOTE + " " + SCHED_NOTE),
+ "C07": dict(cat="exploration", tech=SCHED, ref="§4 C07",
+             text="All schedules up to the bound of closed programs with 1-2 parked consumers/producers, bursts of enabling operations, Close and cancel; quiescence oracle: no caller parked while its condition holds, everyone released by Close/cancel.", note=SCHED_NOTE),
+ "C08": dict(cat="exploration", tech=SCHED, ref="§4 C08",
+             text="All schedules up to the bound of broker programs (5 back-ends x dispatch options x 1-2 publishers x 1-2 messages x 2 subscribers, static/late subscribe/unsubscribe): window delivery exactly once, common order with one worker, never invented or duplicated.", note=SCHED_NOTE),
+ "C09": dict(cat="exploration", tech=SCHED, ref="§4 C09",
+             text="All schedules up to the bound of bursts, Stop/cancel races, concurrent Wait, and client calls with cancelled contexts on 4 back-ends: no stall at quiescence, Wait returns, every goroutine exits, broker survives cancelled client calls.", note=SCHED_NOTE),
+ "C10": dict(cat="fault_enumeration", tech=SCHED + "; fault matrix {absent,ok,error,panic}^3 x handler x end", ref="§4 C10",
+             text="Every cell of the 4x4x4x3x3 lifecycle matrix and 1-3 concurrent Start/Close/Wait callers under every schedule up to the bound: phase counts and order, exactly one successful Start, Wait completeness, Running() false after Wait.", note=SCHED_NOTE),
+ "C11": dict(cat="exploration", tech=SCHED, ref="§4 C11",
+             text="All schedules up to the bound of orchestrator (service state at Add x add time x outcome), Group, WorkerPool/HandlerWorkerPool and Cleanup programs: start at most once, await all, errors collected, accepted jobs/cleanups run exactly once.", note=SCHED_NOTE),
+ "C12": dict(cat="model_checking", tech="exhaustive enumeration of error-expression trees vs an independent constituent model + " + SCHED + " for the Collector", ref="§4 C12",
+             text="All error trees up to the reported depth: nil-iff, single identity, errors.Is/As for every constituent, Unwind multiset/order; plus every schedule up to the bound of concurrent Collector Add/Resolve/Len/Iterator programs (contents, nil-iff, race oracle).", note=SEQ_NOTE + " " + SCHED_NOTE),
+ "C13": dict(cat="exploration", tech=SCHED + " with a vector-clock happens-before race oracle over instrumented plain accesses", ref="§2.4, §4 C13",
+             text="Every unordered pair of public operations of each concurrency-safe type in each pre-state, two threads, every schedule up to the bound: no two conflicting accesses unordered by happens-before.", note=SCHED_NOTE + " Access instrumentation covers addressable fields, captured locals, assigned package variables, slice/array elements, maps and pointer dereferences of the instrumented packages."),
+ "C14": dict(cat="exploration", tech=SCHED, ref="§4 C14",
+             text="All schedules up to the bound of waiters x workers x cancellation x reuse x Launch/DoTimes programs over the real fun.WaitGroup.", note=SCHED_NOTE),
+ "C15": dict(cat="exploration", tech=SCHED + "; Retry scripts and hook orders enumerated exhaustively", ref="§4 C15",
+             text="All schedules up to the bound of 2-3 concurrent callers of every Once/Limit/Lock wrapper, waiter-vs-completion for Launch/Signal/Background/StartGroup, all Retry result scripts up to n+1, hook orders.", note=SCHED_NOTE),
  "C16": dict(cat="model_checking", tech="explicit-state BFS over operation histories of the real List/Stack vs a sequence model", ref="§4 C16",
              text="Every operation history up to depth 5 (quick) / 7 (thorough) over two lists / stacks with element handles: all traversals, Len, In/Ok, rejected operations, against a slice model.", note=SEQ_NOTE),
  "C17": dict(cat="model_checking", tech="exhaustive input enumeration of sort/IsSorted/Heap vs independent oracle", ref="§4 C17",
              text="Every sequence over {-1,0,1,2} up to length 6/8 x three orderings: permutation, sortedness, stability, usability after sort, IsSorted iff, Heap order.", note=SEQ_NOTE),
+ "C18": dict(cat="model_checking", tech="explicit-state BFS over Set operation histories vs a reference set + " + SCHED + " with a brute-force sequential-witness check of every history", ref="§4 C18",
+             text="Every operation history up to depth 6/8 on 4 set kinds agrees with a reference set; every history of 2-3 thread programs on a synchronized set under every schedule up to the bound has a sequential witness; race oracle on.", note=SEQ_NOTE + " " + SCHED_NOTE),
  "C19": dict(cat="model_checking", tech="exhaustive enumeration of histogram shapes x value multisets vs a sorted-slice oracle", ref="§4 C19",
              text="All (shape, multiset) cases of the reported grid: record in range succeeds, TotalCount, quantile precision bound, Min/Max, Export/Import/Merge equality, no invariant panic.", note=SEQ_NOTE),
+ "C20": dict(cat="exploration", tech=SCHED, ref="§4 C20",
+             text="All schedules up to the bound of 1-2 iterators x additions / removals / Close / cancel on Queue and Deque iterator flavours: in-order, nothing skipped, not parked with an unseen item, EOF after Close, no panic under churn.", note=SCHED_NOTE),
 }
 
 NA_REASON = "check under construction (not yet registered)"
@@ -44,7 +69,7 @@ def main():
             "thorough_cmd": f"./check {pid} thorough",
             "evidence_file": f"/verif/evidence/{pid}.json",
             "replay_cmd_template": f"./check {pid} quick -replay {{path}}",
-            "engine": "vs" if c["cat"] == "exploration" else "seq",
+            "engine": "vs" if ("controlled scheduler" in c["tech"]) else "seq",
             "level_claimed": {"category": c["cat"], "text": c["text"], "design_ref": c["ref"]},
             "level_note": c["note"],
             "technique": c["tech"],
@@ -60,9 +85,9 @@ def main():
             "add_only": True,
         },
         "engines": [
-            {"name": "vs", "path": "/verif/vs", "serves_properties": [p for p in PROPS if p in CHECKS and CHECKS[p]["cat"] == "exploration"],
+            {"name": "vs", "path": "/verif/vs", "serves_properties": [p for p in PROPS if p in CHECKS and "controlled scheduler" in CHECKS[p]["tech"]],
              "kind_free_text": "hand-written stateless model checker for Go: source instrumenter (cmd/vinstr) + runtime model of sync/atomic/context/time/chan + controlled scheduler + iterative deviation-bounded DFS + vector-clock race oracle"},
-            {"name": "seq", "path": "/verif/seq", "serves_properties": [p for p in PROPS if p in CHECKS and CHECKS[p]["cat"] != "exploration"],
+            {"name": "seq", "path": "/verif/seq", "serves_properties": [p for p in PROPS if p in CHECKS and ("BFS" in CHECKS[p]["tech"] or "enumeration of" in CHECKS[p]["tech"])],
              "kind_free_text": "explicit-state BFS over operation histories of the real objects against reference models (replay on fresh objects, canonical state keys)"},
         ],
         "checks": checks,
